@@ -17,6 +17,16 @@ import KrakenModel.Model.ConnState
    op active                   => c1,c4 (sorted)           ActiveConns
    op snap                     => h0:p1:<remaining>,…      BlacklistSnapshot (sorted)
    op adv <ns>                 => ok                       clock.Mock.Add
+
+   machine `cse` (the uses of the State in scheduler/events.go, applied to a real scheduler `state`)
+   understands the records above (executed on `state.conns`) and additionally:
+   op announce h<j> <p<i>|self,…>  => ok        announceResultEvent{h, peers}.apply(state)
+   op dialled h<j>                 => <sorted>   (harness) peers newly pending after that announce,
+                                                 read back by probing state.conns before and after
+   op connclosed c<k>              => ok        connClosedEvent{c}.apply(state)
+   op failout p<i> h<j>            => ok        failedOutgoingHandshakeEvent.apply(state)
+   op failin p<i> h<j>             => ok        failedIncomingHandshakeEvent.apply(state)
+   op padd … / pdelp …                           like add / delp, made by the harness itself (probes)
 -/
 open Driver KrakenModel.ConnState
 
@@ -207,6 +217,82 @@ def step (s : St) (kind : String) (args impl : List String) : Option (St × Step
 
 def machine : Machine := { σ := St, name := "cs", init := init, step := step }
 
+/-! ### scheduler events -/
+
+/-- the reserved peer number standing for the scheduler's own peer id -/
+def selfPeer : Nat := 999
+
+structure ESt where
+  base : St
+  lastDial : List (Nat × List Nat × List Nat) := []   -- per hash: model's dialled list, announced peers
+
+def peerOrSelf? (t : String) : Option Nat := if t = "self" then some selfPeer else peer? t
+
+/-- ghost effect of a `Blacklist` call made inside an event handler (its error is only logged) -/
+def ghostBlacklist (s : St) (p h : Nat) : Mon :=
+  if s.cfg.disableBlacklist ∨ s.mon.blLive h p then s.mon
+  else { s.mon with bl := (h, p, s.mon.now + s.cfg.blacklistDuration) :: s.mon.bl.filter fun e => !(e.1 == h && e.2.1 == p) }
+
+def estep (es : ESt) (kind : String) (args impl : List String) : Option (ESt × StepOut) :=
+  if kind ≠ "op" then none else
+  let s := es.base
+  match args with
+  | ["announce", ht, lt] => do
+    let h ← hash? ht
+    let peers ← (list? lt).mapM peerOrSelf?
+    let (m', dl) := announceResult s.cfg s.m selfPeer h peers
+    let full := (count s.m h : Int) = s.cfg.max
+    let br := if dl.isEmpty then (if full then "announce.full" else "announce.none")
+      else if dl.length < (peers.filter (fun p => p ≠ selfPeer ∧ !blacklisted s.m p h ∧ (lookup s.m h p).isNone)).eraseDups.length
+      then "announce.cut-at-capacity" else "announce.all"
+    pure ({ es with base := { s with m := m' }, lastDial := (h, dl, peers) :: es.lastDial.filter (·.1 != h) },
+          { obs := ["ok"], branch := br })
+  | ["dialled", ht] => do
+    let h ← hash? ht
+    let (dl, peers) := ((es.lastDial.find? (·.1 == h)).map (·.2)).getD ([], [])
+    let implDl := (impl.head?.map list?).getD [] |>.filterMap peer?
+    let g := s.mon
+    let pf : List String :=
+      (implDl.flatMap fun q =>
+        (if !s.cfg.disableBlacklist ∧ g.blLive h q then
+          [s!"side=impl key=dialled-blacklisted announce result for h{h} dialled p{q} at t={g.now} while it is blacklisted"] else []) ++
+        (if q ∉ peers then
+          [s!"side=impl key=dialled-unannounced p{q} became pending for h{h} although the announce result did not list it"] else [])) ++
+      (if s.cfg.max ≥ 0 ∧ ((g.count h + (implDl.filter fun q => (g.status h q).isNone).length : Nat) : Int) > s.cfg.max then
+        [s!"side=impl key=over-capacity announce result for h{h} dialled {implDl.length} peers on top of {g.count h} pending/active conns, max {s.cfg.max}"] else [])
+    let occ := implDl.foldl (fun occ q => if occ.any (fun e => e.1 == h && e.2.1 == q) then occ else occ ++ [(h, q, none)]) g.occ
+    pure ({ es with base := { s with mon := { g with occ } } },
+          { obs := [listTok ((sortNat dl).map (s!"p{·}"))], branch := s!"dialled.{min dl.length 3}", propfails := pf })
+  | ["connclosed", ct] => do
+    let k ← conn? ct
+    let c ← findConn s k
+    let br := match lookup s.m c.hash c.peer with
+      | some (.active id) => if id = c.id then "connclosed.own" else "connclosed.replaced"
+      | _ => "connclosed.stale"
+    let mon1 := monDeleteActive s.mon c
+    let mon := ghostBlacklist { s with mon := mon1 } c.peer c.hash
+    pure ({ es with base := { s with m := connClosed s.cfg s.m c, mon } }, { obs := ["ok"], branch := br })
+  | ["failout", pt, ht] => do
+    let p ← peer? pt; let h ← hash? ht
+    let mon1 := monDeletePending s.mon p h
+    let mon := ghostBlacklist { s with mon := mon1 } p h
+    pure ({ es with base := { s with m := failedOutgoing s.cfg s.m p h, mon } }, { obs := ["ok"], branch := "failout" })
+  | ["failin", pt, ht] => do
+    let p ← peer? pt; let h ← hash? ht
+    pure ({ es with base := { s with m := deletePending s.m p h, mon := monDeletePending s.mon p h } },
+          { obs := ["ok"], branch := "failin" })
+  | _ => do
+    -- `padd` / `pdelp`: AddPending / DeletePending calls made by the harness itself (sentinel, probes)
+    let args' := match args with
+      | "padd" :: rest => "add" :: rest
+      | "pdelp" :: rest => "delp" :: rest
+      | _ => args
+    let (s', out) ← step s kind args' impl
+    pure ({ es with base := s' }, out)
+
+def eventsMachine : Machine :=
+  { σ := ESt, name := "cse", init := fun toks => (init toks).map fun s => { base := s }, step := estep }
+
 end C16
 
-def main (args : List String) : IO UInt32 := runMachines [C16.machine] args
+def main (args : List String) : IO UInt32 := runMachines [C16.machine, C16.eventsMachine] args
